@@ -384,7 +384,9 @@ def corpus():
 
 
 def run(ctx, n=None):
-    rng = ctx.rng
+    # a random source of its own (derived from VERIF_SEED): the draws of the property's other streams do not move when these grow
+    import random as _random
+    rng = _random.Random(ctx.seed * 104729 + 7)
     n = n or (250 if ctx.quick else 5000)
     cases = corpus() + [gen_case(rng, k) for k in range(n)]
     S.run(ctx, cases)
